@@ -142,8 +142,25 @@ def model_nroots_corpus():
     return Model(basis, terms)
 
 
+def model_spin_ofs(n, rng):
+    """spins without conserved quantity, XX + ZZ couplings between ALL pairs, a few of them strong: reordering the sites lowers the
+    entanglement, so on-the-fly swapping really swaps (also late in a sweep)"""
+    basis = [BasisHalfSpin(i) for i in range(n)]
+    terms = []
+    k = int(rng.integers(0, 3))
+    for i in range(n):
+        for j in range(i + 1, n):
+            jj = float(rng.normal()) * (1.0 if (i + j) % 3 == k else 0.1)
+            for a in ("sigma_x", "sigma_z"):
+                terms.append(Op("%s %s" % (a, a), [i, j], jj))
+    terms += [Op("sigma_z", i, float(rng.uniform(-0.5, 0.5))) for i in range(n)]
+    return Model(basis, terms)
+
+
 def build_model(case, rng):
     k = case["kind"]
+    if k == "spin_ofs":
+        return model_spin_ofs(case["n"], rng)
     if k == "spinboson":
         return model_spinboson(case["ns"], case["nbas"], case.get("pos", "right"), rng)
     if k == "osc":
@@ -525,8 +542,13 @@ def run_case(case):
         proc = []
         for m, p_ in case["procedure"]:
             if isinstance(m, dict):
-                cc = CompressConfig(CompressCriteria.fixed, max_bonddim=int(max(m["max_dims"])))
-                cc.max_dims = np.array(m["max_dims"], dtype=int)
+                ofs = {None: None, "s": OFS.ofs_s, "d": OFS.ofs_d, "ds": OFS.ofs_ds, "debug": OFS.ofs_debug}[m.get("ofs")]
+                if "max_dims" in m:
+                    cc = CompressConfig(CompressCriteria.fixed, max_bonddim=int(max(m["max_dims"])), ofs=ofs, ofs_swap_jw=bool(m.get("swap_jw", False)))
+                    cc.max_dims = np.array(m["max_dims"], dtype=int)
+                else:
+                    # a real CompressConfig entry (an integer entry makes optimize_mps build a config WITHOUT on-the-fly swapping)
+                    cc = CompressConfig(CompressCriteria.fixed, max_bonddim=int(m["m"]), ofs=ofs, ofs_swap_jw=bool(m.get("swap_jw", False)))
                 proc.append([cc, float(p_)])
             else:
                 proc.append([int(m), float(p_)])
@@ -568,10 +590,26 @@ def run_case(case):
         energies, res = G.optimize_mps(mps, mpo, omega=omega)
         out["ok"] = True
     except Exception:
+        tb = traceback.format_exc()
+        REC.on = False
+        if "AssertionError" in tb and "swap_site" in tb:
+            # C17's known finding (symbolic_mpo.swap_site asserts after repeated swaps): a rejected generation, not a C08 statement
+            out["skip"] = "try_swap_site raised AssertionError in symbolic_mpo.swap_site (C17 known finding)"
+            return out
         out["ok"] = False
-        out["crash"] = traceback.format_exc()[-1500:]
+        out["crash"] = tb[-1500:]
         energies, res = None, None
     REC.on = False
+    swapping = any(isinstance(m, dict) and m.get("ofs") for m, _ in case["procedure"]) or bool(case.get("ofs"))
+    if swapping and energies is not None:
+        try:
+            out["order_after"] = [str(b.dof) for b in mps.model.basis]
+            if omega is None:
+                # the input objects after the run: the MPO reordered in place must be the operator in the order the input state now carries
+                out["input_consistency_err"] = float(np.abs(np.asarray(mpo.todense()) - dense_given(mps.model, given)).max())
+        except Exception:
+            out["input_consistency_err"] = float("inf")
+            out["input_consistency_tb"] = traceback.format_exc()[-600:]
     out["trace"] = REC.events
     out["constructs"] = REC.constructs
     out["sweeps"] = len(REC.sweeps)
@@ -590,11 +628,12 @@ def run_case(case):
                 d["norm"] = float(np.sqrt(n2))
                 d["out_of_sector"] = float(np.linalg.norm(psi[~sec]))
                 d["dense_energy"] = float(np.real(np.vdot(psi, hd @ psi)) / n2) * inverse
-                hmodel = Mpo(st.model) if case.get("ofs") else mpo
+                hmodel = Mpo(st.model) if (case.get("ofs") or any(isinstance(m, dict) and m.get("ofs") for m, _ in case["procedure"])) else mpo
                 d["expectation_H"] = float(np.real(st.expectation(hmodel)))
                 hplain = dense_given(st.model, given)
                 d["dense_H"] = float(np.real(np.vdot(psi, hplain @ psi)) / n2)
                 d["bond_dims"] = [int(x) for x in st.bond_dims]
+                d["order"] = [str(b.dof) for b in st.model.basis]
                 d["qntot"] = np.asarray(st.qntot).tolist()
             except Exception:
                 d["error"] = traceback.format_exc()[-800:]
